@@ -198,11 +198,11 @@ for verb, names in [("GET", ["GetMapping", "RequestMethod.GET", "GET"]), ("PUT",
 row(props=["C12"], func=API + "(JavaAPIListener).EnterAnnotation", params=["s", "ctx"], kind="emits", target="globalstore:" + API + "isSpringRestController", tag={}, total=1,
     when="QualifiedName(ctx) != nil && " + CTRL, fields={"value": "true"}, what="controller ⇔ annotated @RestController or @Controller")
 row(props=["C12"], func=API + "(JavaAPIListener).EnterAnnotation", params=["s", "ctx"], kind="emits", target="globalstore:" + API + "hasEnterRestController", tag={}, total=1,
-    when="QualifiedName(ctx) != nil && (%s || global(\"%sisSpringRestController\")) && %s" % (CTRL, API, MAPPING), fields={"value": "true"},
-    what="a handler entry is started ⇔ mapping annotation inside a controller")
+    when="QualifiedName(ctx) != nil && (%s || global(\"%sisSpringRestController\")) && %s && global(\"%shasEnterClass\")" % (CTRL, API, MAPPING, API), fields={"value": "true"},
+    what="a handler entry is started ⇔ mapping annotation on a member of a controller (a class-level mapping only gives the base path)")
 row(props=["C12"], func=API + "(JavaAPIListener).EnterAnnotation", params=["s", "ctx"], kind="callguard", callee=API + "buildBaseApiUrlString",
-    expr="QualifiedName(ctx) != nil && (%s || global(\"%sisSpringRestController\")) && !global(\"%shasEnterClass\")" % (CTRL, API, API),
-    what="the base path is taken from class-level annotations of a controller only")
+    expr="QualifiedName(ctx) != nil && !global(\"%shasEnterClass\")" % API,
+    what="the base path is taken from the class-level annotations, whatever their order (@RequestMapping may precede @RestController)")
 
 # ------------------------------------------------------------------ C01 / C02 / C17 extras
 row(props=["C01"], func="pkg/adapter/cocafile.GetFilesWithFilter$1", params=["path", "fi", "err"], kind="returns", expr="nil",
@@ -330,6 +330,12 @@ row(props=["C20"], func="pkg/infrastructure/ast/ast_python.(PythonIdentListener)
     expr=PYN, what="the imported names are split out of the name list without its parentheses")
 row(props=["C20"], func="pkg/infrastructure/ast/ast_python.(PythonIdentListener).EnterFrom_stmt", params=["s", "ctx"], kind="callguard", callee="strings.Split",
     expr='contains(%s, ",")' % PYN, what="a from-import with several names records each of them")
+STARTED = 'QualifiedName(ctx) != nil && (%s || global("%sisSpringRestController")) && %s && global("%shasEnterClass")' % (CTRL, API, MAPPING, API)
+PAIRTXT = 'GetText(ElementValue(pair))'
+row(props=["C12"], func=API + "(JavaAPIListener).EnterAnnotation", params=["s", "ctx"], kind="emits", target="globalstore:" + API + "currentRestAPI.Uri", tag={}, total=2, each={"as": "pair"},
+    when=STARTED + ' && ElementValuePairs(ctx) != nil && GetText(Identifier(pair)) == "value"',
+    fields={"value": 'global("%sbaseApiUrl") + ite(len(%s) < 2, %s, call("slice", %s, 1, len(%s) - 1))' % (API, PAIRTXT, PAIRTXT, PAIRTXT, PAIRTXT)},
+    what="the value= attribute gives the path of every mapping annotation, shorthand (@PutMapping(value = ...)) and @RequestMapping alike")
 
 json.dump({"e5": rows}, open(os.path.join(os.path.dirname(os.path.dirname(os.path.abspath(__file__))), "spec", "e5.json"), "w"), indent=1, ensure_ascii=False)
 print(len(rows), "rows")
